@@ -122,8 +122,9 @@ def read_txn_header(f, pos, file_size, outp, ltid):
     if tl < (23 + ul + dl + el):
         error("invalid transaction length, %s, at %s", tl, pos)
 
-    if ltid and tid < ltid:
-        error("time-stamp reducation %s < %s, at %s", u64(tid), u64(ltid), pos)
+    if ltid and tid <= ltid:
+        error("time-stamp reducation %s <= %s, at %s",
+              u64(tid), u64(ltid), pos)
 
     if status == "c":
         truncate(f, pos, file_size, outp)
